@@ -62,7 +62,7 @@ type Step struct {
 	Host      int       `json:"host,omitempty"`
 	Panic     bool      `json:"panic,omitempty"`
 	PanicLate bool      `json:"panic_late,omitempty"` // the handler has already started its response when it panics
-	Via       int       `json:"via,omitempty"`        // 0 a custom http.Handler; 1-5 a registered Endpoint with ActionFunc, DataFunc, StructFunc, RecordFunc, HandlerFunc
+	Via       int       `json:"via,omitempty"`        // 0 a custom http.Handler; 1-5 a registered Endpoint with ActionFunc, DataFunc, StructFunc, RecordFunc, HandlerFunc; 6 a handler function wrapped with WrapInAuthHandler
 	Secs      int       `json:"secs,omitempty"`
 	Keys      []KeySpec `json:"keys,omitempty"`
 	Dev       bool      `json:"dev,omitempty"`
@@ -73,6 +73,9 @@ type Step struct {
 type Plan struct {
 	WithAuthenticator bool   `json:"with_authenticator"`
 	Steps             []Step `json:"steps"`
+	// Noise: a second client is busy at the same time: requests with unknown cookies and keys (refused: the handler wants
+	// a user), and session clean-ups. None of it changes what any credential grants.
+	Noise int `json:"noise,omitempty"`
 }
 
 func (H) Generate(prop string, rng *rand.Rand, tier string) any {
@@ -83,6 +86,9 @@ func (H) Generate(prop string, rng *rand.Rand, tier string) any {
 		return tablePlan(simkit.RunIndex / 4)
 	}
 	p := &Plan{WithAuthenticator: rng.IntN(3) != 0}
+	if rng.IntN(3) == 0 {
+		p.Noise = 2 + rng.IntN(10)
+	}
 	n := 3 + rng.IntN(16)
 	creds := []string{"none", "bearer", "basic", "unknown", "short", "malformed", "cookie", "badcookie", "bridge"}
 	for i := 0; i < n; i++ {
@@ -126,7 +132,7 @@ func (H) Generate(prop string, rng *rand.Rand, tier string) any {
 		s.Panic = prop == "C06" || rng.IntN(12) == 0
 		s.PanicLate = s.Panic && rng.IntN(3) == 0
 		if rng.IntN(3) == 0 {
-			s.Via = 1 + rng.IntN(5)
+			s.Via = 1 + rng.IntN(6)
 		}
 		s.Secs = []int{1, 60, 240, 290, 310, 360, 700}[rng.IntN(7)]
 		s.Dev = rng.IntN(2) == 0
@@ -154,7 +160,7 @@ func (H) Tune(prop string, plan any, cfg *simrt.Config) {
 	cfg.MaxSteps = 400000
 	// C13: "no message crashes the process" includes the runtime's abort on overlapping map accesses, which cannot
 	// happen inside the simulation: predict it from happens-before instead
-	cfg.Race = prop == "C13"
+	cfg.Race = prop == "C13" || prop == "C12"
 	if dp, ok := plan.(*DBPlan); ok && dp.Stall > 0 {
 		cfg.MaxSteps = 1500000 // a thousand writes and their notifications
 	}
@@ -218,6 +224,26 @@ func (H) Reset() {
 			panic(err)
 		}
 		api.RegisterHandler("/vs/{r}/{w}", handlerT{})
+		api.RegisterHandler("/vs-bg", api.WrapInAuthHandler(func(rw http.ResponseWriter, req *http.Request) {
+			_, _ = rw.Write([]byte("ok"))
+		}, api.PermitUser, api.PermitUser))
+		// the convenience wrapper: a plain handler function with fixed permissions
+		seen := map[[2]int]bool{}
+		for _, r := range permPool {
+			for _, w := range permPool {
+				if seen[[2]int{r, w}] {
+					continue
+				}
+				seen[[2]int{r, w}] = true
+				api.RegisterHandler(fmt.Sprintf("/vs-wrap/%d/%d", r, w), api.WrapInAuthHandler(func(rw http.ResponseWriter, req *http.Request) {
+					epRan(api.GetAPIRequest(req))
+					if curPanicLate {
+						rw.WriteHeader(http.StatusAccepted)
+					}
+					_, _ = rw.Write([]byte("wrapped handler ran"))
+				}, api.Permission(r), api.Permission(w)))
+			}
+		}
 	}
 	config.VerifSimMuteEvents()
 	api.VerifSimResetPackage()
@@ -307,6 +333,7 @@ type state struct {
 	requests      int
 	reports       []*modules.ModuleError
 	errCh         chan *modules.ModuleError
+	noiseCh       chan struct{} // C12: tokens for the second client
 }
 
 func permVal(spec int) (int, bool) {
@@ -338,6 +365,9 @@ func (H) Execute(prop string, plan any, rc *simkit.RunCtx) {
 	_ = config.SetConfigOption(config.CfgDevModeKey, false)
 	if p.WithAuthenticator {
 		err := api.SetAuthenticator(func(r *http.Request, srv *http.Server) (*api.AuthToken, error) {
+			if r.Header.Get("X-Sim-Noise") != "" {
+				return nil, nil
+			}
 			s.authCalls++
 			b := s.authBehaviour
 			switch b.Auth {
@@ -358,6 +388,42 @@ func (H) Execute(prop string, plan any, rc *simkit.RunCtx) {
 	s.errCh = make(chan *modules.ModuleError, 64)
 	modules.SetErrorReportingChannel(s.errCh)
 	h := api.VerifSimHandler()
+	if p.Noise > 0 && prop == "C12" {
+		// the second client acts whenever the first one sends a request (one token per request), so that the two are
+		// busy at the same time
+		noiseDone := make(chan struct{})
+		s.noiseCh = make(chan struct{}, 64)
+		go func() {
+			defer close(noiseDone)
+			i := 0
+			for range s.noiseCh {
+				i++
+				if i > p.Noise*4 {
+					continue
+				}
+				switch i % 3 {
+				case 0, 1:
+					req := httptest.NewRequest("GET", "http://"+hosts[0]+"/vs-bg", nil)
+					req.Host = hosts[0]
+					req.RemoteAddr = "10.9.9.9:4444"
+					req.Header.Set("X-Sim-Noise", "1")
+					if i%3 == 0 {
+						req.AddCookie(&http.Cookie{Name: "Portmaster-API-Token", Value: fmt.Sprintf("no-such-session-%d", i)})
+					} else {
+						req.Header.Set("Authorization", fmt.Sprintf("Bearer no-such-key-%d", i))
+					}
+					h.ServeHTTP(httptest.NewRecorder(), req)
+				default:
+					api.VerifSimCleanSessions()
+				}
+			}
+		}()
+		defer func() {
+			close(s.noiseCh)
+			<-noiseDone
+		}()
+		rc.Probe("second-client-busy")
+	}
 	for si, st := range p.Steps {
 		if rc.Failed() {
 			return
@@ -450,7 +516,10 @@ func (s *state) request(si int, st Step, h http.Handler) {
 	host = hosts[st.Host%len(hosts)]
 	url := fmt.Sprintf("http://%s/vs/%d/%d", host, reqR, reqW)
 	via := st.Via
-	if via > 0 {
+	if via == 6 {
+		url = fmt.Sprintf("http://%s/vs-wrap/%d/%d", host, reqR, reqW)
+		rc.Probe("request-to-wrapped-handler")
+	} else if via > 0 {
 		// an Endpoint of the chosen function type with these permissions (registered on first use; permissions an
 		// Endpoint cannot be registered with fall back to the custom handler)
 		path := fmt.Sprintf("vs-ep/%d/%d/%d", reqR, reqW, via)
@@ -515,6 +584,12 @@ func (s *state) request(si int, st Step, h http.Handler) {
 		req.RemoteAddr = api.VerifSimBridgeAddr
 	}
 	s.authBehaviour = st
+	if s.noiseCh != nil {
+		select {
+		case s.noiseCh <- struct{}{}:
+		default:
+		}
+	}
 	ex := s.decide(st, m, acrm, reqR, reqW, origin, keyTok, cookieTok)
 	o := &obs{}
 	curObs, curPanic, curPanicLate = o, st.Panic, st.PanicLate
@@ -570,7 +645,7 @@ func (s *state) request(si int, st Step, h http.Handler) {
 			rc.Fail("C12.preflight-ran-handler", "a CORS preflight request invoked the handler", desc)
 		}
 		return
-	case ex.runs && via > 0 && m == "OPTIONS":
+	case ex.runs && via > 0 && via < 6 && m == "OPTIONS":
 		// an Endpoint answers OPTIONS itself (204) without calling its function
 		return
 	case ex.runs:
